@@ -27,7 +27,7 @@ type c07Case struct {
 	Class  string   `json:"class,omitempty"` // mutation class that produced Hex
 }
 
-var c07Calls int // calls made by this worker process
+var c07Calls int    // calls made by this worker process
 var c07Recorded int // inputs whose hash this worker process has recorded
 
 func init() {
